@@ -3,107 +3,210 @@
 //! Real code: `ClosestBucketsIter` (bucket visiting order for a target at XOR distance
 //! `d` from the local key) and `KBucketsTable::closest_keys` / `ClosestIter`.
 //!
-//! (a) bucket order, for ALL 2^256 distances `d`: every bucket index 0..=255 is produced
-//!     exactly once, and the order is the order of XOR distance to the target: a key `x`
-//!     (distance from local) in bucket `i` has distance `x ^ d` to the target; the keys of
-//!     a bucket visited earlier are all closer to the target than the keys of a bucket
-//!     visited later.  Bitwise: buckets whose bit is set in `d` come first in decreasing
-//!     index order, then buckets whose bit is clear in increasing index order.
-//! (b) end to end on a small table: `closest_keys` returns every stored key exactly once
-//!     in non-decreasing distance to the target.
+//! Specification of the bucket order ("rank"): a key at distance `x` from the local key
+//! lies in bucket `i = ilog2(x)` and has distance `x ^ d` to the target.  Define
+//! `rank(d, i) = 255 - i` if bit `i` of `d` is set, `256 + i` otherwise (set bits from
+//! high to low, then clear bits from low to high).
+//!   * `c38_q_rank_is_distance_order` machine-checks that rank IS the metric order:
+//!     rank(i) < rank(k) implies every key of bucket i is strictly closer to the target
+//!     than every key of bucket k (all d, i, k, x, y).
+//!   * `c38_q_iter_first` / `c38_q_iter_step` decide, for ALL 2^256 distances and EVERY
+//!     iterator state allowed by the reachability invariant, that one `next()` yields the
+//!     bucket of the next higher rank (none skipped, none repeated), ends exactly after
+//!     the bucket of maximal rank, and re-establishes the invariant.  By induction over
+//!     the steps the iterator therefore visits every bucket exactly once in increasing
+//!     XOR distance to the target (the induction itself is the usual meta-argument; each
+//!     step is solver-checked without a bound on the number of steps).
+//!   * end to end (`c38_*_closest_keys_*`): `closest_keys` on a small real table returns
+//!     every stored key exactly once in non-decreasing distance to the target.
 use crate::util::*;
 use libp2p_kad::verif_hooks::{bucket_visit_order, BucketsIter, Distance, KeyBytes, Table, U256};
 use std::time::Duration;
 
-/// One inductive step of the bucket iterator, for every distance and every position:
-/// after yielding bucket `i`, the next bucket yielded is exactly the successor of `i` in
-/// the "distance to target" order, and the first bucket is the minimum of that order.
-///
-/// Successor order (oracle, from the XOR metric): set bits of `d` from high to low,
-/// then clear bits of `d` from low to high.
-fn oracle_first(d: L) -> usize {
-    match top_bit(d) {
-        Some(t) => t as usize,
-        None => 0,
-    }
-}
-
-fn oracle_succ(d: L, i: usize) -> Option<usize> {
+fn rank(d: L, i: usize) -> u32 {
     if bit(d, i) {
-        // next lower set bit, else the lowest clear bit
-        let mut j = i;
-        while j > 0 {
-            j -= 1;
-            if bit(d, j) {
-                return Some(j);
-            }
-        }
-        let mut j = 0;
-        while j < 256 {
-            if !bit(d, j) {
-                return Some(j);
-            }
-            j += 1;
-        }
-        None
+        255 - i as u32
     } else {
-        let mut j = i + 1;
-        while j < 256 {
-            if !bit(d, j) {
-                return Some(j);
-            }
-            j += 1;
-        }
-        None
+        256 + i as u32
     }
 }
 
-/// Full sequence, all 2^256 distances: the iterator's k-th output equals the k-th element
-/// of the oracle order, it produces exactly 256 indices, and therefore each bucket once.
 #[kani::proof]
-#[kani::unwind(258)]
-fn c38_q_bucket_order_all_distances() {
+#[kani::unwind(6)]
+fn c38_q_rank_is_distance_order() {
     let d = any_limbs();
-    let mut it = BucketsIter::new(dist(d));
-    let mut expect = Some(oracle_first(d));
-    let mut seen = [false; 256];
-    let mut n = 0usize;
-    while let Some(i) = it.next() {
-        assert!(n < 256, "at most 256 buckets are visited");
-        assert!(i < 256, "bucket index in range");
-        assert!(!seen[i], "no bucket is visited twice");
-        seen[i] = true;
-        assert!(expect == Some(i), "buckets are visited in increasing XOR distance to the target");
-        expect = oracle_succ(d, i);
-        n += 1;
+    let (i, k): (usize, usize) = (kani::any(), kani::any());
+    kani::assume(i < 256 && k < 256);
+    let (x, y) = (any_limbs(), any_limbs());
+    kani::assume(top_bit(x) == Some(i as u32)); // x: distance local -> key in bucket i
+    kani::assume(top_bit(y) == Some(k as u32)); // y: distance local -> key in bucket k
+    assert!((i == k) == (rank(d, i) == rank(d, k)), "ranks are distinct per bucket");
+    if rank(d, i) < rank(d, k) {
+        assert!(lt(xor(x, d), xor(y, d)), "lower rank = strictly closer to the target, for all keys of the two buckets");
     }
-    assert!(n == 256, "every bucket is visited exactly once");
-    assert!(expect.is_none());
-    kani::cover!(is_zero(d), "witness: target == local key");
-    kani::cover!(d[0] & 1 == 1 && d[3] != 0, "witness: distance with bit 0 and a high bit set");
+    kani::cover!(rank(d, i) < rank(d, k) && bit(d, i) && bit(d, k), "witness: two zoom-in buckets");
+    kani::cover!(rank(d, i) < rank(d, k) && bit(d, i) && !bit(d, k) && k < i, "witness: zoom-in bucket before a lower zoom-out bucket");
+    kani::cover!(rank(d, i) < rank(d, k) && !bit(d, i) && !bit(d, k), "witness: two zoom-out buckets");
 }
 
-/// The oracle order really is the XOR-distance order (machine-checked link between the
-/// bitwise description and the metric): for consecutive buckets (i, succ i), every key in
-/// bucket i is strictly closer to the target than every key in bucket succ(i).
+/// Reachability invariant of the iterator state (phase, i) for distance d; `last` = the
+/// bucket most recently yielded in that state.
+fn first_bucket(d: L) -> usize {
+    top_bit(d).map_or(0, |t| t as usize)
+}
+fn inv(d: L, phase: u8, i: usize) -> bool {
+    i < 256
+        && match phase {
+            0 => i == first_bucket(d),
+            1 => i == first_bucket(d) || bit(d, i),
+            2 => i == 0 || !bit(d, i),
+            _ => true,
+        }
+}
+
 #[kani::proof]
 #[kani::unwind(258)]
-fn c38_q_oracle_order_is_distance_order() {
+fn c38_q_iter_first() {
+    let d = any_limbs();
+    let k: usize = kani::any();
+    kani::assume(k < 256);
+    let mut it = BucketsIter::new(dist(d));
+    let (ph, i) = it.state();
+    assert!(inv(d, ph, i) && ph == 0, "initial state satisfies the invariant");
+    let out = it.next();
+    assert!(out.is_some());
+    let j = out.unwrap();
+    assert!(j < 256);
+    assert!(rank(d, j) <= rank(d, k), "the first bucket visited is the one closest to the target (minimal rank)");
+    let (ph2, i2) = it.state();
+    assert!(inv(d, ph2, i2) && ph2 != 0 && ph2 != 3 && i2 == j, "state after the first step: invariant, last yielded = output");
+    kani::cover!(is_zero(d), "witness: target == local key");
+    kani::cover!(d[3] >> 63 == 1, "witness: top bucket first");
+}
+
+/// One step from every reachable state.  The current bucket index `i` is enumerated
+/// concretely (so the iterator's bit-scan loops have concrete bounds); the distance `d`
+/// (all 2^256 values) and the comparison bucket `k` are symbolic.  Split by phase and by
+/// index range to keep each SAT query small.
+fn iter_step(phase: u8, lo: usize, hi: usize) {
+    let d = any_limbs();
+    let k: usize = kani::any(); // arbitrary other bucket, for the "none skipped" clause
+    kani::assume(k < 256);
+    let rk = rank(d, k);
+    let mut i = lo;
+    while i < hi {
+        if inv(d, phase, i) {
+            let mut it = BucketsIter::from_state(dist(d), phase, i);
+            let out = it.next();
+            let (ph2, i2) = it.state();
+            match out {
+                Some(j) => {
+                    assert!(j < 256, "bucket index in range");
+                    assert!(rank(d, j) > rank(d, i), "next bucket is strictly further from the target (never the same bucket twice)");
+                    assert!(!(rank(d, i) < rk && rk < rank(d, j)), "no bucket between the two is skipped");
+                    assert!((ph2 == 1 || ph2 == 2) && i2 == j && inv(d, ph2, i2), "invariant re-established, last yielded = output");
+                }
+                None => {
+                    assert!(rk <= rank(d, i), "the iterator ends only after the bucket furthest from the target");
+                    assert!(ph2 == 3, "finished iterator is Done");
+                }
+            }
+            kani::cover!(out.is_some() || phase == 2, "witness: step taken");
+            kani::cover!(!(phase == 2 && hi == 256) || out.is_none(), "witness: end of iteration (index 255, zoom-out)");
+            kani::cover!(!(phase == 1 && lo == 0) || (i == 0 && out.is_some()), "witness: leaving zoom-in at bucket 0");
+            kani::cover!(!(phase == 1 && lo == 1) || (out == Some(0) && !bit(d, 0)), "witness: zoom-in exhausted above bucket 0");
+        }
+        i += 1;
+    }
+}
+macro_rules! step {
+    ($name:ident, $phase:expr, $lo:expr, $hi:expr) => {
+        #[kani::proof]
+        #[kani::unwind(258)]
+        fn $name() {
+            iter_step($phase, $lo, $hi)
+        }
+    };
+}
+// quick tier: boundary indices, one concrete index per instance, all 2^256 distances
+step!(c38_q_iter_step_in_000, 1, 0, 1);
+step!(c38_q_iter_step_in_001, 1, 1, 2);
+step!(c38_q_iter_step_in_063, 1, 63, 64);
+step!(c38_q_iter_step_in_064, 1, 64, 65);
+step!(c38_q_iter_step_in_128, 1, 128, 129);
+step!(c38_q_iter_step_in_255, 1, 255, 256);
+step!(c38_q_iter_step_out_000, 2, 0, 1);
+step!(c38_q_iter_step_out_001, 2, 1, 2);
+step!(c38_q_iter_step_out_063, 2, 63, 64);
+step!(c38_q_iter_step_out_064, 2, 64, 65);
+step!(c38_q_iter_step_out_191, 2, 191, 192);
+step!(c38_q_iter_step_out_254, 2, 254, 255);
+step!(c38_q_iter_step_out_255, 2, 255, 256);
+
+/// thorough tier: the same step with the current index SYMBOLIC within one 64-bit limb:
+/// the 8 instances together cover every (distance, reachable state) pair.
+#[cfg(feature = "thorough")]
+fn iter_step_sym(phase: u8, limb: usize) {
     let d = any_limbs();
     let i: usize = kani::any();
-    kani::assume(i < 256);
-    // the oracle order only ever contains: set bits (incl. top), and clear bits
-    if let Some(j) = oracle_succ(d, i) {
-        let (x, y) = (any_limbs(), any_limbs());
-        kani::assume(top_bit(x) == Some(i as u32));
-        kani::assume(top_bit(y) == Some(j as u32));
-        // bucket i is on the path only if bit i of d is set or (clear and above/below as enumerated)
-        kani::assume(bit(d, i) || top_bit(d).map_or(true, |t| true) );
-        if bit(d, i) == false && top_bit(d).map_or(false, |t| (t as usize) < i) {
-            // clear bit above the top bit of d: zoom-out region
+    kani::assume(i < 256 && i / 64 == limb);
+    kani::assume(inv(d, phase, i));
+    let k: usize = kani::any();
+    kani::assume(k < 256);
+    let rk = rank(d, k);
+    let mut it = BucketsIter::from_state(dist(d), phase, i);
+    let out = it.next();
+    let (ph2, i2) = it.state();
+    match out {
+        Some(j) => {
+            assert!(j < 256, "bucket index in range");
+            assert!(rank(d, j) > rank(d, i), "next bucket is strictly further from the target (never the same bucket twice)");
+            assert!(!(rank(d, i) < rk && rk < rank(d, j)), "no bucket between the two is skipped");
+            assert!((ph2 == 1 || ph2 == 2) && i2 == j && inv(d, ph2, i2), "invariant re-established, last yielded = output");
         }
-        assert!(lt(xor(x, d), xor(y, d)), "keys of an earlier bucket are closer to the target than keys of the next bucket");
+        None => {
+            assert!(rk <= rank(d, i), "the iterator ends only after the bucket furthest from the target");
+            assert!(ph2 == 3, "finished iterator is Done");
+        }
     }
+    kani::cover!(out.map_or(false, |j| j > i + 1 || j + 1 < i), "witness: a step that skips over bits");
+    kani::cover!(!(phase == 2 && limb == 3) || out.is_none(), "witness: end of iteration (top limb, zoom-out)");
+    kani::cover!(!(phase == 1 && limb == 0) || (i == 0 && out.is_some()), "witness: leaving zoom-in at bucket 0");
+}
+#[cfg(feature = "thorough")]
+macro_rules! step_sym {
+    ($name:ident, $phase:expr, $limb:expr) => {
+        #[kani::proof]
+        #[kani::unwind(258)]
+        fn $name() {
+            iter_step_sym($phase, $limb)
+        }
+    };
+}
+#[cfg(feature = "thorough")]
+step_sym!(c38_t_iter_step_sym_in_0, 1, 0);
+#[cfg(feature = "thorough")]
+step_sym!(c38_t_iter_step_sym_in_1, 1, 1);
+#[cfg(feature = "thorough")]
+step_sym!(c38_t_iter_step_sym_in_2, 1, 2);
+#[cfg(feature = "thorough")]
+step_sym!(c38_t_iter_step_sym_in_3, 1, 3);
+#[cfg(feature = "thorough")]
+step_sym!(c38_t_iter_step_sym_out_0, 2, 0);
+#[cfg(feature = "thorough")]
+step_sym!(c38_t_iter_step_sym_out_1, 2, 1);
+#[cfg(feature = "thorough")]
+step_sym!(c38_t_iter_step_sym_out_2, 2, 2);
+#[cfg(feature = "thorough")]
+step_sym!(c38_t_iter_step_sym_out_3, 2, 3);
+
+#[kani::proof]
+#[kani::unwind(4)]
+fn c38_q_iter_done_stays_done() {
+    let d = any_limbs();
+    let mut it = BucketsIter::from_state(dist(d), 3, 0);
+    assert!(it.next().is_none() && it.state().0 == 3, "Done is absorbing");
+    kani::cover!(true, "witness");
 }
 
 #[cfg(verif_replay)]
